@@ -31,39 +31,40 @@ impl FileSystem for OverlayFs {
             self.import()?;
         }
 
-        if (!self.config.do_import || self.config.writeback)
-            && capable.contains(FsOptions::WRITEBACK_CACHE)
-        {
+        let writeback = (!self.config.do_import || self.config.writeback)
+            && capable.contains(FsOptions::WRITEBACK_CACHE);
+        if writeback {
             opts |= FsOptions::WRITEBACK_CACHE;
-            self.writeback.store(true, Ordering::Relaxed);
         }
+        self.writeback.store(writeback, Ordering::Relaxed);
 
-        if (!self.config.do_import || self.config.no_open)
-            && capable.contains(FsOptions::ZERO_MESSAGE_OPEN)
-        {
+        let no_open = (!self.config.do_import || self.config.no_open)
+            && capable.contains(FsOptions::ZERO_MESSAGE_OPEN);
+        if no_open {
             opts |= FsOptions::ZERO_MESSAGE_OPEN;
             opts.remove(FsOptions::ATOMIC_O_TRUNC);
-            self.no_open.store(true, Ordering::Relaxed);
         }
+        self.no_open.store(no_open, Ordering::Relaxed);
 
-        if (!self.config.do_import || self.config.no_opendir)
-            && capable.contains(FsOptions::ZERO_MESSAGE_OPENDIR)
-        {
+        let no_opendir = (!self.config.do_import || self.config.no_opendir)
+            && capable.contains(FsOptions::ZERO_MESSAGE_OPENDIR);
+        if no_opendir {
             opts |= FsOptions::ZERO_MESSAGE_OPENDIR;
-            self.no_opendir.store(true, Ordering::Relaxed);
         }
+        self.no_opendir.store(no_opendir, Ordering::Relaxed);
 
-        if (!self.config.do_import || self.config.killpriv_v2)
-            && capable.contains(FsOptions::HANDLE_KILLPRIV_V2)
-        {
+        let killpriv_v2 = (!self.config.do_import || self.config.killpriv_v2)
+            && capable.contains(FsOptions::HANDLE_KILLPRIV_V2);
+        if killpriv_v2 {
             opts |= FsOptions::HANDLE_KILLPRIV_V2;
-            self.killpriv_v2.store(true, Ordering::Relaxed);
         }
+        self.killpriv_v2.store(killpriv_v2, Ordering::Relaxed);
 
-        if self.config.perfile_dax && capable.contains(FsOptions::PERFILE_DAX) {
+        let perfile_dax = self.config.perfile_dax && capable.contains(FsOptions::PERFILE_DAX);
+        if perfile_dax {
             opts |= FsOptions::PERFILE_DAX;
-            self.perfile_dax.store(true, Ordering::Relaxed);
         }
+        self.perfile_dax.store(perfile_dax, Ordering::Relaxed);
 
         Ok(opts)
     }
